@@ -50,14 +50,21 @@ def _depth_iterative(fn) -> Optional[tuple]:
     if not (isinstance(k0, ast.Constant) and isinstance(k0.value, int)):
         return None
     walkers = [n for n, v in inits.items() if isinstance(v, ast.Name) and v.id == me]
-    w = walkers[0] if walkers else None
+    walkers2 = [n for n, v in inits.items() if isinstance(v, ast.Attribute) and v.attr == "parent" and isinstance(v.value, ast.Name) and v.value.id == me]
+    w = walkers[0] if walkers else (walkers2[0] if walkers2 else None)
     if w is None or wl.orelse:
         return None
     t = wl.test
     if isinstance(t, ast.Compare) and len(t.ops) == 1 and isinstance(t.ops[0], ast.IsNot) and isinstance(t.comparators[0], ast.Constant) and t.comparators[0].value is None:
         t = t.left
-    if not (isinstance(t, ast.Attribute) and t.attr == "parent" and isinstance(t.value, ast.Name) and t.value.id == w):
-        return None
+    if walkers:
+        # the walker starts at the group itself and climbs while there is a parent
+        if not (isinstance(t, ast.Attribute) and t.attr == "parent" and isinstance(t.value, ast.Name) and t.value.id == w):
+            return None
+    else:
+        # the walker starts at the parent and climbs while it is a group
+        if not (isinstance(t, ast.Name) and t.id == w):
+            return None
     inc = None
     step = False
     for st in wl.body:
@@ -97,6 +104,32 @@ def _depth(ctx: Ctx, c: Collector) -> None:
         else:
             c.ok("interval", qn, "depth = 1 + number of enclosing groups", "counted along the parent chain, starting from 1", fi.loc)
         return
+    # a value that is computed once when the group is made (`self._depth = ...` in __init__ / __post_init__, also through
+    # object.__setattr__ for a frozen class) and handed out by the property is that value; the stored field of the parent is
+    # the parent's depth
+    rets = s.returns
+    stored = None
+    if len(rets) == 1 and not rets[0].guards and T.strip(rets[0].term)[0] == "attr" and T.strip(rets[0].term)[1] == me:
+        fld = T.strip(rets[0].term)[2]
+        for mname in ("__post_init__", "__init__"):
+            mfi = ctx.prog.functions.get(f"mosaik.scenario.SimGroup.{mname}")
+            if mfi is None:
+                continue
+            ms = ctx.summ(mfi.qualname)
+            m_me = T.var(mfi.params[0])
+            for e in ms.events:
+                v = None
+                if e.kind == "store" and e.term[1] == ("attr", m_me, fld):
+                    v = e.term[2]
+                elif e.kind == "call" and e.term[1] == ("attr", T.glob("object"), "__setattr__") and len(e.term[2]) == 3 and e.term[2][0] == m_me and e.term[2][1] == T.const(fld):
+                    v = e.term[2][2]
+                if v is not None and not e.guards:
+                    stored = T.replace(unalias(v, ms, mfi), {m_me: me})
+                    stored = T.replace(stored, {("attr", ("attr", me, "parent"), fld): ("attr", ("attr", me, "parent"), "depth")})
+        writers = [f2.qualname for f2 in analysis_units(ctx.prog) for e in summarise(ctx.prog, f2).of_kind("store")
+                   if e.term[1][0] == "attr" and e.term[1][2] == fld and f2.name not in ("__post_init__", "__init__")]
+        if writers:
+            stored = None
     try:
         for has in (False, True):
             def truthy(t, has=has):
@@ -112,7 +145,9 @@ def _depth(ctx: Ctx, c: Collector) -> None:
             if len(live) != 1:
                 unknown = "the value is not a plain case distinction on `parent`"
                 break
-            v = T.strip(boolfn.resolve_phi(live[0].term, {}, truthy))
+            v = T.strip(boolfn.resolve_phi(stored if stored is not None else live[0].term, {}, truthy))
+            if v[0] == "ifexp":
+                v = T.strip(v[2] if boolfn.evaluate(v[1], {}, truthy) else v[3])
             if not has:
                 if v != T.const(1):
                     if v[0] == "const":
